@@ -658,12 +658,13 @@ impl Check for C15 {
         "exploration"
     }
     fn rule(&self) -> String {
-        "differential twin runs: a generated program (benign faults only: broker DISCONNECT / close) is recorded with whole-buffer reads and writes and re-executed, step for step, under (a) every one of the 2^(n-1) chunkings of the first connection's inbound stream when it is at most 12 bytes long, sampled chunkings (1 byte, 2 bytes, random, splits after byte 1 and inside the length) otherwise, and (b) write acceptance patterns {1 byte, random, alternating 1/all, all-but-one, 3 bytes}, each with and without a Pending before every call. Operation results, delivered messages and the outbound byte stream of every connection must equal the reference. Non-trivial iff the variant split at least one packet; distinct = distinct abstract traces x policy.".into()
+        "differential twin runs: a generated program (benign faults only: broker DISCONNECT / close) is recorded with whole-buffer reads and writes and re-executed, step for step, under (a) every one of the 2^(n-1) chunkings of the first connection's inbound stream when it is at most 12 bytes long, sampled chunkings (1 byte, 2 bytes, random, splits after byte 1 and inside the length) otherwise, and (b) write acceptance patterns {1 byte, random, alternating 1/all, all-but-one, 3 bytes}, each with and without a Pending before every call. Operation results, delivered messages and the outbound byte stream of every connection must equal the reference. (c) time-gapped delivery: the same program with the inbound stream stalling 0..20 bytes into whatever the broker sends next (inside packets), the abandoned poll()/recv() repeated; (d) workload stalls-under-keepalive: keep-alive 1/2/10 s and stalls that outlast the client's own deadline, so that the library itself abandons a read in the middle of a packet, sends PINGREQ and resumes: delivered messages, results of all requests, errors and outbound packets other than PINGREQ must equal the run without stalls. Non-trivial iff the variant split at least one packet; distinct = distinct abstract traces x policy.".into()
     }
     fn assumptions(&self) -> Vec<String> {
         let mut v: Vec<String> = COMMON_ASSUME.iter().map(|s| s.to_string()).collect();
         v.push("the reference broker reacts to completed client packets only, so its answers are identical across variants by construction".into());
-        v.push("keep-alive 0; no operation is cancelled; no caller time-outs other than on an idle connection".into());
+        v.push("fragment-twin and exhaustive-chunkings: keep-alive 0, no operation is cancelled, no caller time-outs other than on an idle connection or on a stalled stream (the call is then repeated and the repetition is not compared)".into());
+        v.push("stalls-under-keepalive: the ping schedule legitimately depends on time, so PINGREQ packets and the results of poll() calls are not compared; variants in which a stall began while a PINGREQ was unanswered are skipped (the peer then looks dead, which is C10's subject)".into());
         v
     }
     fn workloads(&self) -> Vec<Workload> {
